@@ -610,7 +610,40 @@ class C12(HistoryProfile):
     cfg = super(C12, self).config(rng, tier)
     cfg["weights"] = gen.swarm_weights(rng, self.base_weights(),
                                        keep=("add_records", "update_records", "add_table", "add_summary"))
+    # summary tables grouped by a reference, incl. a reference to the rows of another summary table
+    # (whose removal clears the reference and so regroups this one: a cascade of removals)
+    cfg["groupby_refs"] = rng.random() < 0.5
+    cfg["ref_to_summary_p"] = rng.choice([0.0, 0.3, 0.6])
+    cfg["cascade_start"] = rng.random() < 0.2
+    if cfg["cascade_start"]:
+      cfg["groupby_refs"] = True
     return cfg
+
+  def first_events(self, sim, g, cfg):
+    yield {"k": "open"}
+    if not cfg.get("cascade_start"):
+      return
+    # A document in which removing one empty summary row empties a group of another summary
+    # table: B refers to the rows of A's summary table and is itself summarised by that reference
+    # (with one row whose reference is empty). The seeded history then edits A and B.
+    a, b = g.new_table_id(), g.new_table_id()
+    x, y, r = g.new_col_id(), g.new_col_id(), g.new_col_id()
+    yield {"k": "bundle", "ops": ["add_table"], "a": [
+      ["AddTable", a, [{"id": x, "type": "Text", "isFormula": False}, {"id": y, "type": "Int", "isFormula": False}]],
+      ["BulkAddRecord", a, [None] * 4, {x: ["a", "b", "b", "c"], y: [1, 2, 3, 4]}]]}
+    dv = DocView(sim.sigma)
+    yield {"k": "bundle", "ops": ["add_summary"], "a": [
+      ["CreateViewSection", dv.tables[a].ref, 0, "record", [dv.tables[a].cols[x].ref], None]]}
+    dv = DocView(sim.sigma)
+    sums = [t for t in dv.summary_tables()]
+    if not sums:
+      return
+    yield {"k": "bundle", "ops": ["add_table"], "a": [
+      ["AddTable", b, [{"id": r, "type": "Ref:" + sums[0].tableId, "isFormula": False}]],
+      ["BulkAddRecord", b, [None] * 4, {r: [1, 2, 0, 3]}]]}
+    dv = DocView(sim.sigma)
+    yield {"k": "bundle", "ops": ["add_summary"], "a": [
+      ["CreateViewSection", dv.tables[b].ref, 0, "record", [dv.tables[b].cols[r].ref], None]]}
 
   def check(self, sim, out, st):
     if out.ok and out.ev["k"] in ("bundle", "undo", "redo", "restart"):
